@@ -8,6 +8,7 @@ import CircBuf.Lemmas.Drain
 import CircBuf.Lemmas.Contents
 import CircBuf.Lemmas.ExtendSlice2
 import CircBuf.Lemmas.History
+import CircBuf.Lemmas.Fill
 /-!
 # C01 — every mutator implements bounded-deque sequence semantics
 
@@ -115,6 +116,23 @@ theorem C01_fill_with (s : Sys) (h : Inv s.buf) (hd : s.faults.drop = 0)
     Runs fillWith s () (newElems s.next s.buf.cap)
       (((newElems s.next s.buf.cap).reverse.map fun e => Event.given e.id) ++
         dropEvents s.kind (abs s.buf)) s.buf.cap := fillWith_runs s h hd hc hk
+
+/-- `fill_spare(value)` -/
+theorem C01_fill_spare (s : Sys) (value : Elem) (h : Inv s.buf) (hd : s.faults.drop = 0)
+    (hc : s.faults.clone = 0) :
+    ∃ evs, Runs (fillSpare value) s ()
+      (if s.buf.size = s.buf.cap then abs s.buf
+       else abs s.buf ++ cloneList s.kind s.next (List.replicate (s.buf.cap - 1 - s.buf.size) value) ++ [value])
+      evs (if s.buf.size = s.buf.cap then 0 else cloneCount s.kind (s.buf.cap - 1 - s.buf.size)) :=
+  fillSpare_runs s value h hd hc
+
+/-- `fill(value)` -/
+theorem C01_fill (s : Sys) (value : Elem) (h : Inv s.buf) (hd : s.faults.drop = 0)
+    (hc : s.faults.clone = 0) :
+    ∃ evs, Runs (fill value) s ()
+      (if s.buf.cap = 0 then []
+       else cloneList s.kind s.next (List.replicate (s.buf.cap - 1) value) ++ [value])
+      evs (if s.buf.cap = 0 then 0 else cloneCount s.kind (s.buf.cap - 1)) := fill_runs s value h hd hc
 
 /-- `drain(a..b)` followed by its drop, after any consumption: what is left is
 `take a ++ drop b` (details in C09) -/
